@@ -49,3 +49,39 @@ Print Assumptions C02_cow_premise.
 (* the premises are satisfiable *)
 Example C02_setting_inhabited : commit_setting ex_d ex_cur ex_newh 2 [4%N; 5%N].
 Proof. exact ex_setting. Qed.
+
+(* ---- the premise `commit_setting` is not only satisfiable: it HOLDS for every commit of the engine model (coq/model/Engine.v, the
+   library's write path, tied to the library page for page) -- the pages a transaction writes, overflow pages and the new free-list
+   run included, come from the free list or from beyond the high-water mark and are disjoint from everything the previous header
+   reaches. So the three crash theorems above apply to every transaction of the engine: any kill point, any power-loss image, any
+   single failing call leaves the previous or the new commit, and a completed commit is durable. ---- *)
+From Jamm Require Engine EnginePathFacts EngineRefines EngineOwnDefs EngineOwnSpill EngineCow.
+Theorem C02_engine_commits_are_crash_safe : forall (st : Engine.db) (ops : list Engine.op) (ord : list Bytes.bytes) (st' : Engine.db),
+  EngineOwnSpill.db_okz st -> Forall (EnginePathFacts.op_ok (Engine.d_disk st)) ops ->
+  Engine.run_tx st ops ord = Engine.Ok st' -> EngineRefines.readable st' ->
+  exists w : list (N * (N * Engine.ndata)),
+    EngineCow.tx_cow st st' w /\
+    (forall cd : Crash.disk, Crash.select cd = Some (EngineCow.eng_header st) ->
+     let cur := EngineCow.eng_header st in let newh := EngineCow.eng_header st' in
+     let t := Engine.d_tx st' in let wrt := EngineCow.tx_written st st' w in
+     let tgt := negb (Crash.current_slot cd) in let ios := Crash.commit_io wrt in
+     (forall (n : nat) (fates : nat -> Crash.fate),
+        CrashFacts.pre_or_post cd cur newh t wrt (Crash.power_image t newh tgt cd ios n fates)) /\
+     (forall fates : nat -> Crash.fate,
+        let img := Crash.power_image t newh tgt cd ios (List.length ios) fates in
+        Crash.select img = Some newh /\ Crash.intact (CrashFacts.orig_new cd t wrt) img newh) /\
+     (forall (k : nat) (f : Crash.fate),
+        CrashFacts.pre_or_post cd cur newh t wrt (Crash.fault_image t newh tgt cd ios k f))).
+Proof. exact EngineCow.engine_commit_crash_safe. Qed.
+Print Assumptions C02_engine_commits_are_crash_safe.
+
+Theorem C02_engine_writes_only_free_pages : forall (st : Engine.db) (ops : list Engine.op) (ord : list Bytes.bytes) (st' : Engine.db),
+  EngineOwnSpill.db_okz st -> Forall (EnginePathFacts.op_ok (Engine.d_disk st)) ops ->
+  Engine.run_tx st ops ord = Engine.Ok st' ->
+  exists w : list (N * (N * Engine.ndata)),
+    Engine.d_disk st' = EngineSpillFacts.apply_wr w (Engine.d_psz st) (Engine.d_disk st) /\
+    (forall x : N, EngineCow.written st st' w x ->
+       ((Engine.d_np st <= x)%N \/ In x (Engine.free (Engine.begin_w st))) /\
+       ~ In x (EngineRefines.live_of st (EngineOwnDefs.Rof st)) /\ (2 <= x)%N /\ (x < Engine.d_np st')%N).
+Proof. exact EngineCow.run_tx_writes_from_free. Qed.
+Print Assumptions C02_engine_writes_only_free_pages.
